@@ -12,13 +12,19 @@ REPS = list(range(0, 256)) + list(range(0x100, 0x200))
 def char_class(prog, clo, rep):
     """evaluate a `|x: char| -> bool` closure on every abstract character"""
     out = set()
+    unicode_pred = False
     for cp in REPS:
         it = Interp(prog, Policy())
         r = it.call_closure(clo, [Tok("C", "x", cp, dom="char")])
         if not isinstance(r, bool):
             raise Inconclusive("character class closure returned %r" % (r,))
+        if any(e[0] == "unicode-pred" for e in it.events):
+            unicode_pred = True
         if r:
             out.add(cp)
+    if unicode_pred and not any(cp >= 0x80 for cp in out):
+        # a Unicode-aware predicate that happens to reject every representative proves nothing about the classes
+        raise Inconclusive("character class uses a Unicode-aware predicate; the abstraction cannot bound it")
     return out
 
 
